@@ -3,6 +3,7 @@ package sample
 import (
 	"encoding/json"
 	"fmt"
+	"math"
 	"math/rand"
 	"strings"
 
@@ -375,6 +376,20 @@ func compare(a, b interface{}) (int, bool) {
 
 	if b == nil {
 		return more, true
+	}
+
+	// msgpack clients may encode non-negative integers in the unsigned family and
+	// floats in 32 bits; those decode to uint64 and float32. Compare them as the
+	// int64 / float64 they are numerically equal to.
+	switch v := a.(type) {
+	case uint64:
+		if v <= math.MaxInt64 {
+			a = int64(v)
+		} else {
+			a = float64(v)
+		}
+	case float32:
+		a = float64(v)
 	}
 
 	switch at := a.(type) {
